@@ -1407,4 +1407,61 @@ theorem sendBatch_completes (mk : Layout → List Item → List (Region × List 
   simp only [List.length_cons, sendBatch]
   exact (runBatches_completes mk prep exec h).2 _ _ (by omega)
 
+/-! ## sortedness through the batch calls, structural equalities -/
+
+theorem regionBatchPut_sorted (R : Region) (b : List Item) (m : Store) (hs : m.Sorted) : (regionBatchPut m R b).Sorted := by
+  unfold regionBatchPut
+  induction b generalizing m with
+  | nil => exact hs
+  | cons it t ih =>
+    simp only [List.foldl_cons]
+    apply ih
+    unfold regionPut
+    split
+    · exact OMap.insert_sorted hs _ _
+    · exact hs
+
+theorem regionBatchDelete_sorted (R : Region) (keys : List Bytes) (m : Store) (hs : m.Sorted) :
+    (regionBatchDelete m R keys).Sorted := by
+  unfold regionBatchDelete
+  induction keys generalizing m with
+  | nil => exact hs
+  | cons a t ih =>
+    simp only [List.foldl_cons]
+    apply ih
+    unfold regionDelete
+    split
+    · exact OMap.erase_sorted hs _
+    · exact hs
+
+theorem foldl_ins_sorted (items : List Item) (m : Store) (hs : m.Sorted) : (items.foldl ins m).Sorted := by
+  induction items generalizing m with
+  | nil => exact hs
+  | cons it t ih => simp only [List.foldl_cons]; exact ih _ (OMap.insert_sorted hs _ _)
+
+theorem foldl_erase_sorted (keys : List Bytes) (m : Store) (hs : m.Sorted) :
+    (keys.foldl (fun a k => a.erase k) m).Sorted := by
+  induction keys generalizing m with
+  | nil => exact hs
+  | cons a t ih => simp only [List.foldl_cons]; exact ih _ (OMap.erase_sorted hs _)
+
+theorem foldl_erase_get (keys : List Bytes) (m : Store) (k : Bytes) :
+    (keys.foldl (fun a k => a.erase k) m).get k = if k ∈ keys then none else m.get k := by
+  induction keys generalizing m with
+  | nil => simp
+  | cons a t ih =>
+    simp only [List.foldl_cons, List.mem_cons]
+    rw [ih, OMap.get_erase]
+    by_cases ht : k ∈ t
+    · simp [ht]
+    · by_cases hk : k = a <;> simp [ht, hk]
+
+theorem put_served_sorted (s : BState) (R : Region) (b : List Item) (hI : IAll OMap.Sorted s) :
+    IAll OMap.Sorted (served (execPut s R b) b) :=
+  IAll_served _ s (execPut s R b) _ hI rfl (regionBatchPut_sorted R b s.store (hI s.store (by simp [BState.stores])))
+
+theorem delete_served_sorted (s : BState) (R : Region) (b : List Item) (hI : IAll OMap.Sorted s) :
+    IAll OMap.Sorted (served (execDelete s R b) b) :=
+  IAll_served _ s (execDelete s R b) _ hI rfl (regionBatchDelete_sorted R _ s.store (hI s.store (by simp [BState.stores])))
+
 end CGV.RawKV
